@@ -35,6 +35,7 @@ async def explore(tier, seed):
         pool = []
         for _ in range(6):
             dg = DocGen(sg, rng, op_kinds=("query", "mutation") if sg.mutation else ("query",))
+            dg.bad_var_defaults = 0.08
             dg.nested_vars = True; dg.repeat_with_directive = True
             q, ops, opvars = dg.document(n_ops=rng.choice([1, 2, 2]))
             for k in range(len(ops)):
